@@ -17,7 +17,7 @@ BUDGET = {"quick": 2400, "thorough": 800000}
 SHRINK = {"quick": False, "thorough": True}
 RULE = (
     "Hypothesis draws M in 10^[-1,12], tau in 10^[-3,5], a recovery curve (IdealReservoir and real-gas "
-    "SinglePhaseReservoir interpolators simulated once per worker, the analytic Fourier series, a smooth synthetic "
+    "SinglePhaseReservoir interpolators simulated once per worker to t/tau = 6, an IdealReservoir interpolator simulated only to t/tau = 2, the analytic Fourier series, a smooth synthetic "
     "monotone curve), a time array of 50..400 samples (uniform or quadratic) and a case kind: 'scaling' (linearity "
     "in M, joint rescaling of t and tau by dyadic and arbitrary factors), 'bounded-fit' (finite / half-infinite / "
     "default Bounds, positive data whose unconstrained optimum may lie outside, default guesses outside on "
@@ -38,11 +38,18 @@ LEVEL_TEXT = (
 )
 
 
-@functools.lru_cache(maxsize=4)
+@functools.lru_cache(maxsize=8)
 def curve(name):
     from bluebonnet.flow import FlowProperties, IdealReservoir, SinglePhaseReservoir
 
     t = np.linspace(0, np.sqrt(6.0), 800) ** 2
+    if name == "ideal-short":
+        # an interpolator simulated only to t/tau = 2: beyond that it returns its final recovery, so a production
+        # window of up to 3 tau reaches past the simulated range (data "generated from the same curve" all the same)
+        r = IdealReservoir(40, 500.0, 5000.0, None)
+        r.simulate(np.linspace(0, np.sqrt(2.0), 500) ** 2)
+        r.recovery_factor()
+        return r.recovery_factor_interpolator()
     if name == "ideal":
         r = IdealReservoir(40, 500.0, 5000.0, None)
         r.simulate(t)
@@ -73,7 +80,7 @@ def strategy_(draw):
     kind = draw(st.sampled_from(["scaling", "bounded-fit", "bounded-fit", "fixed-tau", "guess", "bad-bounds", "round-trip", "round-trip"]))
     c = {
         "kind": kind,
-        "curve": draw(st.sampled_from(["ideal", "realgas", "analytic", "synthetic"])),
+        "curve": draw(st.sampled_from(["ideal", "realgas", "analytic", "synthetic", "ideal-short"])),
         "logM": draw(st.floats(-1.0, 12.0)),
         "logtau": draw(st.floats(-3.0, 5.0)),
         "n": draw(st.integers(50, 400)),
